@@ -222,22 +222,37 @@ package phase0
 // ---------------------------------------------------------------- slashability predicates (C12, C03)
 // is_slashable_attestation_data: double vote (different data, same target epoch) or surround vote
 //@ func IsSurroundVote(a, b) r
-//@   property C12
+//@   property C12 C03
 //@   opt noalloc
 //@   requires a != nil && b != nil
 //@   ensures r == (a.Source.Epoch < b.Source.Epoch && a.Target.Epoch > b.Target.Epoch)
 
 //@ func IsDoubleVote(a, b) r
-//@   property C12
+//@   property C12 C03
 //@   opt noalloc
 //@   requires a != nil && b != nil
 //@   ensures r == (*a != *b && a.Target.Epoch == b.Target.Epoch)
 
 //@ func IsSlashableAttestationData(a, b) r
-//@   property C12
+//@   property C12 C03
 //@   opt noalloc
 //@   requires a != nil && b != nil
 //@   ensures r == ((*a != *b && a.Target.Epoch == b.Target.Epoch) || (a.Source.Epoch < b.Source.Epoch && b.Target.Epoch < a.Target.Epoch))
+
+// process_attester_slashing's conditions (C03): the two attestation data are slashable against each other (double or
+// surround vote) and both indexed attestations are valid. Which validators get slashed (the sorted intersection, walked
+// through a callback) is not described here; the function fails unless at least one was slashed.
+//@ sort AttSlT = AttesterSlashing
+//@ func ProcessAttesterSlashing(spec, epc, state, attesterSlashing) err
+//@   property C03
+//@   panics off
+//@   opt weakcalls
+//@   opt inline=closures
+//@   requires spec != nil && epc != nil && state != nil && attesterSlashing != nil && epc.ValidatorPubkeyCache != nil
+//@   assigns anything
+//@   ensures slashable_data: err == nil ==> (let a := old(attesterSlashing.Attestation1.Data) in let b := old(attesterSlashing.Attestation2.Data) in (a != b && a.Target.Epoch == b.Target.Epoch) || (a.Source.Epoch < b.Source.Epoch && b.Target.Epoch < a.Target.Epoch))
+//@   ensures attestation1: err == nil ==> idxatt_ok(spec, epc, state, old(attesterSlashing.Attestation1))
+//@   ensures attestation2: err == nil ==> idxatt_ok(spec, epc, state, old(attesterSlashing.Attestation2))
 
 // is_slashable_validator: not slashed and activation_epoch <= epoch < withdrawable_epoch
 //@ sort ValI = common.Validator
@@ -264,12 +279,17 @@ package phase0
 // process_deposit (C03): unless told to skip it, the deposit's Merkle branch (depth DEPOSIT_CONTRACT_TREE_DEPTH + 1,
 // index = the state's next deposit index) must lead to the state's eth1 deposit root
 //@ func ProcessDeposit(spec, epc, state, dep, ignoreSignatureAndProof) err
-//@   property C03
+//@   property C03 C01
 //@   panics off
 //@   opt weakcalls
 //@   opt inline=closures
 //@   requires state != nil && dep != nil
-//@   assigns anything, ghost(n_set_bal)
+//@   assigns anything, ghost(n_set_bal), ghost(n_inc_depidx), ghost(n_add_val), ghost(add_val_pub), ghost(add_val_creds), ghost(add_val_bal)
+//@   ensures c01_index: err == nil ==> n_inc_depidx == old(n_inc_depidx) + 1
+//@   ensures c01_one_effect: err == nil ==> (n_add_val == old(n_add_val) && n_set_bal == old(n_set_bal)) || (n_add_val == old(n_add_val) + 1 && n_set_bal == old(n_set_bal)) || (n_add_val == old(n_add_val) && n_set_bal == old(n_set_bal) + 1)
+//@   ensures c01_new_validator: err == nil && n_add_val == old(n_add_val) + 1 ==> add_val_pub == old(dep.Data.Pubkey) && add_val_creds == old(dep.Data.WithdrawalCredentials) && add_val_bal == old(dep.Data.Amount)
+//@   ensures c03_new_validator_signed: err == nil && spec != nil && n_add_val == old(n_add_val) + 1 ==> pub_valid(old(dep.Data.Pubkey)) && sig_valid(old(dep.Data.Signature)) && (ignoreSignatureAndProof || bls_ok(old(dep.Data.Pubkey), seq(signing_root(deposit_msg_root(old(dep.Data.Pubkey), old(dep.Data.WithdrawalCredentials), old(dep.Data.Amount)), compute_domain(common.DOMAIN_DEPOSIT, spec.GENESIS_FORK_VERSION, RootT(0, 0, 0, 0, 0, 0, 0, 0, 0, 0, 0, 0, 0, 0, 0, 0, 0, 0, 0, 0, 0, 0, 0, 0, 0, 0, 0, 0, 0, 0, 0, 0)))), old(dep.Data.Signature)))
+//@   ensures c01_skipped: err == nil && spec != nil && n_add_val == old(n_add_val) && n_set_bal == old(n_set_bal) ==> !pub_valid(old(dep.Data.Pubkey)) || !sig_valid(old(dep.Data.Signature)) || (!ignoreSignatureAndProof && !bls_ok(old(dep.Data.Pubkey), seq(signing_root(deposit_msg_root(old(dep.Data.Pubkey), old(dep.Data.WithdrawalCredentials), old(dep.Data.Amount)), compute_domain(common.DOMAIN_DEPOSIT, spec.GENESIS_FORK_VERSION, RootT(0, 0, 0, 0, 0, 0, 0, 0, 0, 0, 0, 0, 0, 0, 0, 0, 0, 0, 0, 0, 0, 0, 0, 0, 0, 0, 0, 0, 0, 0, 0, 0)))), old(dep.Data.Signature)))
 //@   ensures proof: err == nil && !ignoreSignatureAndProof ==> !st_depidx_err(state) && !st_eth1_err(state) && mfold(deposit_data_root(old(dep.Data)), old(seq(dep.Proof)), st_depidx(state), common.DEPOSIT_CONTRACT_TREE_DEPTH + 1) == st_eth1(state).DepositRoot
 
 // ---------------------------------------------------------------- registry updates: the exit queue handed to the ejections (C02)
@@ -354,7 +374,7 @@ package phase0
 //@   opt weakcalls
 //@   opt inline=closures
 //@   use reg_len_nonneg
-//@   assigns anything, ghost(n_set_bal), ghost(n_set_lhdr), ghost(set_lhdr), ghost(n_set_eth1), ghost(set_eth1), ghost(n_set_eb), ghost(n_aelig_write), ghost(n_set_act), ghost(last_set_act_v), ghost(last_set_act_val)
+//@   assigns anything, ghost(n_set_bal), ghost(n_set_lhdr), ghost(set_lhdr), ghost(n_set_eth1), ghost(set_eth1), ghost(n_set_eb), ghost(n_aelig_write), ghost(n_set_act), ghost(last_set_act_v), ghost(last_set_act_val), ghost(n_inc_depidx), ghost(n_add_val), ghost(add_val_pub), ghost(add_val_creds), ghost(add_val_bal)
 //@   ensures c13_effective_balance: err == nil && spec != nil && spec.EFFECTIVE_BALANCE_INCREMENT != 0 && r0 != nil && (forall a, b :: {reg_val(pst_vals(r0), a), reg_val(pst_vals(r0), b)} 0 <= a && a < b && b < reg_len(pst_vals(r0)) ==> reg_val(pst_vals(r0), a) != reg_val(pst_vals(r0), b)) ==> (forall i :: {reg_val(pst_vals(r0), i)} 0 <= i && i < reg_len(pst_vals(r0)) ==> v_eb_now(n_set_eb, reg_val(pst_vals(r0), i)) == min(bal_at(n_set_bal, pst_bals(r0), i) - bal_at(n_set_bal, pst_bals(r0), i) % spec.EFFECTIVE_BALANCE_INCREMENT, spec.MAX_EFFECTIVE_BALANCE))
 //@   ensures c13_activated: err == nil && spec != nil && spec.EFFECTIVE_BALANCE_INCREMENT != 0 && r0 != nil && (forall a, b :: {reg_val(pst_vals(r0), a), reg_val(pst_vals(r0), b)} 0 <= a && a < b && b < reg_len(pst_vals(r0)) ==> reg_val(pst_vals(r0), a) != reg_val(pst_vals(r0), b)) ==> (forall i :: {reg_val(pst_vals(r0), i)} 0 <= i && i < reg_len(pst_vals(r0)) && min(bal_at(n_set_bal, pst_bals(r0), i) - bal_at(n_set_bal, pst_bals(r0), i) % spec.EFFECTIVE_BALANCE_INCREMENT, spec.MAX_EFFECTIVE_BALANCE) == spec.MAX_EFFECTIVE_BALANCE ==> v_aelig(n_aelig_write, reg_val(pst_vals(r0), i)) == common.GENESIS_EPOCH)
 //@   loop 2
@@ -472,6 +492,7 @@ package phase0
 //@     invariant ctx_t > old(ctx_t) ==> !ctx_cancelled(ctx, old(ctx_t))
 //@   ensures c03_count: err == nil ==> !st_eth1_err(state) && !st_depidx_err(state) && len(ops) == min(spec.MAX_DEPOSITS, (st_eth1(state).DepositCount - st_depidx(state)) % 18446744073709551616)
 //@   assigns ghost(n_set_bal)
+//@   assigns ghost(n_inc_depidx), ghost(n_add_val), ghost(add_val_pub), ghost(add_val_creds), ghost(add_val_bal)
 
 //@ func ProcessEth1Vote(ctx, spec, epc, state, data) err
 //@   property C18 C01
@@ -764,6 +785,7 @@ package phase0
 //@   assigns ghost(n_set_mix), ghost(last_set_mix_epoch), ghost(last_set_mix)
 //@   assigns ghost(n_set_lhdr), ghost(set_lhdr)
 //@   assigns ghost(n_viter), ghost(viter_pos), ghost(viter_reg), ghost(n_val_write), ghost(n_wd_write), ghost(n_set_exit), ghost(set_exit_v), ghost(set_exit_val), ghost(n_set_wd), ghost(set_wd_v), ghost(set_wd_val)
+//@   assigns ghost(n_inc_depidx), ghost(n_add_val), ghost(add_val_pub), ghost(add_val_creds), ghost(add_val_bal)
 
 //@ func ProcessVoluntaryExits(ctx, spec, epc, state, ops) err
 //@   property C18
